@@ -97,6 +97,78 @@ def calItems? (s : String) : Option (List CalItem) := do
   let l ← intList? s
   some (l.zipIdx.map fun (t, i) => ⟨t, i⟩)
 
+/-! ### channels by attribute (`detail/mixin.py`, `File._get_force` … `_get_photon_time_tags`) -/
+
+/-- attribute of `File` ↦ the HDF5 dataset it reads (default detector mapping) -/
+def attrTable : List (String × String) :=
+  [("force1x", "Force HF/Force 1x"),
+   ("force1y", "Force HF/Force 1y"),
+   ("force1z", "Force HF/Force 1z"),
+   ("force2x", "Force HF/Force 2x"),
+   ("force2y", "Force HF/Force 2y"),
+   ("force2z", "Force HF/Force 2z"),
+   ("force3x", "Force HF/Force 3x"),
+   ("force3y", "Force HF/Force 3y"),
+   ("force3z", "Force HF/Force 3z"),
+   ("force4x", "Force HF/Force 4x"),
+   ("force4y", "Force HF/Force 4y"),
+   ("force4z", "Force HF/Force 4z"),
+   ("corrected_force1x", "Force HF/Corrected Force 1x"),
+   ("corrected_force2x", "Force HF/Corrected Force 2x"),
+   ("downsampled_force1x", "Force LF/Force 1x"),
+   ("downsampled_force1y", "Force LF/Force 1y"),
+   ("downsampled_force1z", "Force LF/Force 1z"),
+   ("downsampled_force2x", "Force LF/Force 2x"),
+   ("downsampled_force2y", "Force LF/Force 2y"),
+   ("downsampled_force2z", "Force LF/Force 2z"),
+   ("downsampled_force3x", "Force LF/Force 3x"),
+   ("downsampled_force3y", "Force LF/Force 3y"),
+   ("downsampled_force3z", "Force LF/Force 3z"),
+   ("downsampled_force4x", "Force LF/Force 4x"),
+   ("downsampled_force4y", "Force LF/Force 4y"),
+   ("downsampled_force4z", "Force LF/Force 4z"),
+   ("distance1", "Distance/Distance 1"),
+   ("distance2", "Distance/Distance 2"),
+   ("red_photon_count", "Photon count/Red"),
+   ("green_photon_count", "Photon count/Green"),
+   ("blue_photon_count", "Photon count/Blue"),
+   ("red_photon_time_tags", "Photon Time Tags/Red"),
+   ("green_photon_time_tags", "Photon Time Tags/Green"),
+   ("blue_photon_time_tags", "Photon Time Tags/Blue")]
+
+/-- trap totals: attribute, then the datasets tried in this order (`Force n`, `Trap n`), then the two components the
+    magnitude is rebuilt from -/
+def trapTable : List (String × String × String × String × String) :=
+  [("downsampled_force1", "Force LF/Force 1", "Force LF/Trap 1", "Force LF/Force 1x", "Force LF/Force 1y"),
+   ("downsampled_force2", "Force LF/Force 2", "Force LF/Trap 2", "Force LF/Force 2x", "Force LF/Force 2y"),
+   ("downsampled_force3", "Force LF/Force 3", "Force LF/Trap 3", "Force LF/Force 3x", "Force LF/Force 3y"),
+   ("downsampled_force4", "Force LF/Force 4", "Force LF/Trap 4", "Force LF/Force 4x", "Force LF/Force 4y")]
+
+inductive AttrRes where
+  | empty                       -- `empty_slice` (the `KeyError` of a missing dataset is swallowed)
+  | path (p : String)           -- that dataset
+  | magnitude (x y : String)    -- `sqrt(x² + y²)` on the timestamps of `x`
+  | noSuchAttribute
+deriving Repr, DecidableEq
+
+def attrLookup (present : List String) (attr : String) : AttrRes :=
+  match attrTable.lookup attr with
+  | some p => if present.contains p then .path p else .empty
+  | none =>
+    match trapTable.lookup attr with
+    | some (f, t, x, y) =>
+      if present.contains f then .path f
+      else if present.contains t then .path t
+      else if present.contains x && present.contains y then .magnitude x y
+      else .empty
+    | none => .noSuchAttribute
+
+def showAttrRes : AttrRes → String
+  | .empty => "empty"
+  | .path p => "path " ++ p
+  | .magnitude x y => "magnitude " ++ x ++ " | " ++ y
+  | .noSuchAttribute => "no-such-attribute"
+
 def handle : List String → Option String
   | ["c05.cal", times, start, stop] => do
     let items ← calItems? times
@@ -122,6 +194,10 @@ def handle : List String → Option String
   | ["c05.dt", rate] => do
     let r ← float? rate
     some (toString (periodOfRate r))
+  | ["c05.attr", present, attr] => do
+    -- present: list of code-point lists; attr: a plain token
+    let present ← Proto.listListOf? nat? present
+    some (showAttrRes (attrLookup (present.map fun p => String.ofList (p.map Char.ofNat)) attr))
   | ["c05.dtu", rate] => do
     let r ← float? rate
     some (toString (periodOfRateUnfixed r))
